@@ -39,7 +39,7 @@ impl HistScenario {
             "delivery": self.delivery,
             "forms": self.forms,
             "matrix_order": self.matrix_order,
-            "note": "N64 values are the listed integers times 0.5",
+            "note": "N64 values are the listed integers times 0.5; +-2^40 stand for +-infinity",
         })
     }
     pub fn from_json(v: &Value) -> Result<HistScenario, String> {
@@ -139,9 +139,20 @@ impl HistElem for i32 {
 }
 impl HistElem for N64 {
     fn conv(v: i64) -> N64 {
-        n64(v as f64 * 0.5)
+        // the two sentinels stand for the infinities (order-consistent with the integer model)
+        if v == POS_INF {
+            n64(f64::INFINITY)
+        } else if v == NEG_INF {
+            n64(f64::NEG_INFINITY)
+        } else {
+            n64(v as f64 * 0.5)
+        }
     }
 }
+
+/// scenario integers that mean +inf / -inf for N64 grids (never generated for i32)
+pub const POS_INF: i64 = 1 << 40;
+pub const NEG_INF: i64 = -(1 << 40);
 
 fn grid_of<T: HistElem>(edges: &[Vec<i64>]) -> Grid<T> {
     Grid::from(edges.iter().map(|e| Bins::new(Edges::from(e.iter().map(|&v| T::conv(v)).collect::<Vec<T>>()))).collect::<Vec<_>>())
@@ -175,6 +186,7 @@ fn insert_obs<T: HistElem>(h: &mut Histogram<T>, obs: &[i64], form: u8) -> Resul
             }
             h.add_observation(&m.row(1)).map_err(|_| ())
         }
+        3 => h.add_observation(&Array1::from(vals).into_shared()).map_err(|_| ()),
         _ => h.add_observation(&Array1::from(vals)).map_err(|_| ()),
     }
 }
